@@ -1,14 +1,14 @@
-SPECIFICATION ReplaySpec
+SPECIFICATION CSpec
 CONSTANTS
   Nodes = {"n1", "n2"}
   AsyncNodes = {"n2"}
-  Kinds = {"spl"}
-  ParallelNum = 2
-  Reqs = {"r1", "r2", "r3", "r4", "r5", "r6", "r7", "r8"}
-  Dsns = {"n1", "n2", ""}
+  Kinds = {"ts", "spl"}
+  ParallelNum = 1
+  Reqs = {"r1"}
+  Dsns = {"n1", "n2", "", "zz"}
   Hdrs = {"", "0", "1"}
-  ViaHTTP = FALSE
-  RG = 4
+  ViaHTTP = TRUE
+  RG = 2
   QOrphan = TRUE
   QUnknownDsn = TRUE
   QSplit = TRUE
@@ -16,7 +16,7 @@ CONSTANTS
   QHeaderIgnored = TRUE
   WT = 1
   MaxNow = 0
-  WdKinds <- WdKindsOne
+  WdKinds <- WdKindsLogs
   QWdFirst = TRUE
-INVARIANTS SelectionInRange
+  OutFile = "cases_q.json"
 CHECK_DEADLOCK FALSE
